@@ -521,7 +521,7 @@ func checkSizes(meta map[string]any) {
 }
 
 func main() {
-	mode := flag.String("mode", "replay", "replay|stress")
+	mode := flag.String("mode", "replay", "replay|stress|f2repro")
 	trace := flag.String("trace", "", "ndjson output (stress)")
 	nreq := flag.Int("n", 600, "requests (stress)")
 	workers := flag.Int("workers", 6, "goroutines (stress)")
@@ -538,6 +538,8 @@ func main() {
 		what := "rpc.Server/" + sc.g.Meta["mode"].(string)
 		explore(sc, func(pathNo int) world { return newRPCWorld(sc.g.Meta, pathNo+int(seed)) }, sum, what)
 		sum.Rule = "evaluations = TLC-derived schedules executed on a real rpc.Server under synctest; distinct = covered (quiescent model state, environment step) pairs of MCRPCSched whose parsed raw output (single/batch responses with id and error class, notifications) and blocked-method set matched the specification"
+	case "f2repro":
+		f2Repro(*nreq, sum)
 	case "stress":
 		runStress(*trace, seed, *nreq, *workers, *ctxAware, sum)
 	default:
